@@ -58,6 +58,20 @@ Theorem C05_rmb_emits_zeros :
 Proof. exact rmb_emits_zeros. Qed.
 Print Assumptions C05_rmb_emits_zeros.
 
+(* (b-line) RMB n from the SOURCE LINE: a statement line in any layout whose operand is a decimal or $hex literal in any
+   spelling up to 32767 is accepted, survives symbol resolution unchanged whatever the table holds, reserves exactly n
+   bytes and emits n zeros *)
+Theorem C05_rmb_literal_line_reserves_zeros :
+  forall f l,
+    well_formed_fields f -> upper_t (lf_mn f) = RMB_t -> lf_ops f = lit_text l -> lit_ok l -> lit_value l <= 32767 ->
+    exists st p, parse_line (line_of f) = Ok (Some st) /\ s_label st = lf_label f /\
+      (forall tb, resolve_operand (s_operand st) (s_instr st) tb = Ok (s_operand st)) /\
+      translate_operand (s_operand st) (s_instr st) = Ok p /\
+      cp_size p = lit_value l /\ emit_value (cp_op p) = Ok [] /\ emit_value (cp_post p) = Ok [] /\
+      emit_value (cp_add p) = Ok (repeat 0 (N.to_nat (lit_value l))).
+Proof. exact rmb_literal_line_reserves_zeros. Qed.
+Print Assumptions C05_rmb_literal_line_reserves_zeros.
+
 (* (c) a single FCB / FDB value: one byte / two bytes high byte first, two's complement at the directive's
    width; a value outside the width is rejected (false upstream: FCB -1 -> 01, FCB 256 -> 10; repair F29).
    Value lists follow in (c'). *)
@@ -88,12 +102,13 @@ Print Assumptions C05_fcb_out_of_range_rejected.
 
 (* (c-line) a single FCB / FDB literal from the SOURCE LINE: a statement line in any layout whose operand field is a
    decimal or $hex literal in ANY spelling (leading zeros, either letter case of hex digits - lit_ok) that fits the
-   directive's width is ACCEPTED and emits exactly the positional value of the digits, one byte / two bytes high
+   directive's width is ACCEPTED, is left as parsed by symbol resolution whatever the table holds, and emits exactly the positional value of the digits, one byte / two bytes high
    byte first (lit_value l <= 65535 holds for every lit_ok literal the assembler reads; it is kept as a hypothesis) *)
 Theorem C05_fcb_literal_line_emits_its_value :
   forall f l,
     well_formed_fields f -> upper_t (lf_mn f) = FCB_t -> lf_ops f = lit_text l -> lit_ok l -> lit_value l <= 255 ->
     exists st p, parse_line (line_of f) = Ok (Some st) /\ s_label st = lf_label f /\
+      (forall tb, resolve_operand (s_operand st) (s_instr st) tb = Ok (s_operand st)) /\
       translate_operand (s_operand st) (s_instr st) = Ok p /\
       cp_size p = 1 /\ emit_value (cp_op p) = Ok [] /\ emit_value (cp_post p) = Ok [] /\
       emit_value (cp_add p) = Ok [lit_value l].
@@ -104,6 +119,7 @@ Theorem C05_fdb_literal_line_emits_its_value :
   forall f l,
     well_formed_fields f -> upper_t (lf_mn f) = FDB_t -> lf_ops f = lit_text l -> lit_ok l -> lit_value l <= 65535 ->
     exists st p, parse_line (line_of f) = Ok (Some st) /\ s_label st = lf_label f /\
+      (forall tb, resolve_operand (s_operand st) (s_instr st) tb = Ok (s_operand st)) /\
       translate_operand (s_operand st) (s_instr st) = Ok p /\
       cp_size p = 2 /\ emit_value (cp_op p) = Ok [] /\ emit_value (cp_post p) = Ok [] /\
       emit_value (cp_add p) = Ok [lit_value l / 256; lit_value l mod 256].
